@@ -57,6 +57,9 @@ fn files_basic() -> Vec<FileSpec> {
         f("raw_single.bin", ContentClass::Random, 0, 300, M_NONE, Enc::None),
         f("z_single.txt", ContentClass::Text, 0, 400, M_ZLIB, Enc::None),
         f("dir\\raw_multi.bin", ContentClass::Random, 5, 20, M_NONE, Enc::None),
+        // a second file with the same number of sectors right behind the first: state a reader keeps from one
+        // file (offset tables, checksum tables, keys) must not leak into the next
+        f("dir\\raw_multi2.bin", ContentClass::Random, 5, 41, M_NONE, Enc::None),
         f("dir\\z_multi.txt", ContentClass::Text, 6, 1, M_ZLIB, Enc::None),
         f("enc_single.txt", ContentClass::Text, 0, 450, M_ZLIB, Enc::Key),
         f("enc_multi.bin", ContentClass::Random, 3, 3, M_NONE, Enc::FixKey),
@@ -105,7 +108,7 @@ fn kinds() -> Vec<KindDef> {
         files,
     };
     let mut signed_files = files_basic();
-    signed_files.truncate(4);
+    signed_files.truncate(5);
     signed_files.push(FileSpec {
         name: "(signature)".into(),
         class: ContentClass::Constant,
@@ -138,6 +141,23 @@ fn kinds() -> Vec<KindDef> {
         },
         // CRC32+MD5 attributes and no sector checksums: the attribute digests are all that protects the file data
         KindDef { name: "attr-full-md5-no-sector-crc", spec: base(1, Attrs::FullThenNoCrcs, false, files_basic()), signed: false, protects: &["file-data", "sector-offset-table", "attributes-file"], prefix: 0, intact_only: false },
+        // CRC32 attributes only and no sector checksums; two of the files have content whose CRC-32 is 0x00000000
+        // (the stored attribute value a reader can mistake for "no checksum recorded")
+        KindDef {
+            name: "attr-crc32-only-no-sector-crc",
+            spec: base(1, Attrs::Crc32ThenNoCrcs, false, {
+                let mut v = files_basic();
+                v.truncate(5);
+                let f = |name: &str, halves, delta| FileSpec { name: name.to_string(), class: ContentClass::Crc32Zero, len: LenSpec { halves, delta }, seed: 11, method: M_NONE, enc: Enc::None, locale: 0 };
+                v.push(f("zero_crc_single.bin", 0, 333));
+                v.push(f("dir\\zero_crc_multi.bin", 5, 9));
+                v
+            }),
+            signed: false,
+            protects: &["file-data", "sector-offset-table", "attributes-file"],
+            prefix: 0,
+            intact_only: false,
+        },
         KindDef { name: "v3-attr-crc32", spec: base(3, Attrs::Crc32, false, files_basic()), signed: false, protects: &["file-data", "sector-offset-table", "attributes-file"], prefix: 0, intact_only: false },
         KindDef { name: "v4-digests", spec: base(4, Attrs::None, false, files_basic()), signed: false, protects: &["header", "hash-table", "block-table", "het-table", "bet-table"], prefix: 0, intact_only: false },
         KindDef { name: "v4-digests-attr", spec: base(4, Attrs::Full, false, files_basic()), signed: false, protects: &["header", "hash-table", "block-table", "het-table", "bet-table", "file-data", "sector-offset-table", "attributes-file"], prefix: 0, intact_only: false },
@@ -455,6 +475,23 @@ fn judge_path(cx: &Ctx, path: &std::path::Path, region: Option<&Region>) -> Resu
     }
     if let Some(hh) = h {
         cx.storm.close(hh);
+    }
+    // intact data verifies whatever was read before through the same handle: every file again in reverse
+    // order, then every file twice in a row
+    if intact {
+        let n = cx.k.spec.files.len();
+        let order: Vec<usize> = (0..n).rev().chain((0..n).flat_map(|i| [i, i])).collect();
+        for i in order {
+            let f = &cx.k.spec.files[i];
+            if f.name == "(signature)" {
+                continue;
+            }
+            match engine::guard("read_file", || ar.read_file(&f.name))? {
+                Ok(d) if d == cx.b.contents[i] => {}
+                Ok(_) => return Err(Fail::new(format!("intact-content-differs-on-reread:{kind}"), f.name.clone())),
+                Err(e) => return Err(Fail::new(format!("intact-file-unreadable-on-reread:{kind}"), format!("{}: {e}", f.name))),
+            }
+        }
     }
     // V4 digests
     let v4 = cx.k.spec.version == 4;
@@ -792,7 +829,7 @@ fn main() {
         // attribute, a sector checksum or a signature still has to
         for r in &b.regions {
             // (not for the kinds whose only content digest is that CRC-32: there the change is undetectable by design)
-            if !k.protects.contains(&r.class) || r.end < r.start + 5 || matches!(k.spec.attrs, Attrs::Crc32) {
+            if !k.protects.contains(&r.class) || r.end < r.start + 5 || matches!(k.spec.attrs, Attrs::Crc32 | Attrs::Crc32ThenNoCrcs) {
                 continue;
             }
             for off in (r.start..=r.end - 5).filter(|o| !quick || (o - r.start) % 5 == 0) {
